@@ -72,4 +72,36 @@ pub fn c13_client(d2: &mut ScancodeSet2, d1: &mut ScancodeSet1, c2: u8, x: u8) -
     (a, b)
 }
 
+//@ LEMMA C13/client_end_to_end_same_decoded_key
+/// real code, end to end: two Keyboards with the same layout, modifiers and mode - one fed the Set 2 code, the other its
+/// i8042 translation - produce the same decoded key and stay in step
+pub fn c13_client_end_to_end<L: KeyboardLayout>(k2: &mut Keyboard<L, ScancodeSet2>, k1: &mut Keyboard<L, ScancodeSet1>, c2: u8, x: u8) -> (r: (Option<DecodedKey>, Option<DecodedKey>))
+    requires
+        old(k2).wf(),
+        old(k1).wf(),
+        old(k2).sc().ctx() == PrefixCtx::Start,
+        old(k1).sc().ctx() == PrefixCtx::Start,
+        old(k2).evd().mods() == old(k1).evd().mods(),
+        old(k2).evd().mode() == old(k1).evd().mode(),
+        old(k2).evd().lay() == old(k1).evd().lay(),
+        xlat_dom(c2),
+        !gap_fwd(0, c2),
+        t_set2(0, c2).is_ok(),
+        x == xlat(c2),
+    ensures
+        r.0 == r.1,
+        final(k2).evd().mods() == final(k1).evd().mods(),
+        final(k2).sc().ctx() == PrefixCtx::Start && final(k1).sc().ctx() == PrefixCtx::Start,
+{
+    proof {
+        lemma_c13_events(0, c2, false);
+    }
+    let e2 = k2.add_byte(c2);
+    let e1 = k1.add_byte(x);
+    match (e2, e1) {
+        (Ok(Some(a)), Ok(Some(b))) => (k2.process_keyevent(a), k1.process_keyevent(b)),
+        _ => (None, None),
+    }
+}
+
 } // mod verif_c13
